@@ -300,6 +300,28 @@ def install(flags=()):  # noqa: C901, PLR0915
 
     _PATCH_REGISTRATIONS[range] = _range_fixed
 
+    if "realfloat" in flags:
+        # CrossHair forks per path between an IEEE bit-vector model and a real-number model of
+        # `float`; the IEEE model does not close on division.  Force the real model.
+        from crosshair.libimpl.builtinslib import ModelingDirector, RealBasedSymbolicFloat
+
+        _orig_md_get = ModelingDirector.get
+
+        def _md_get(self, typ):
+            if typ is float:
+                return RealBasedSymbolicFloat
+            return _orig_md_get(self, typ)
+
+        ModelingDirector.get = _md_get
+        # CrossHair caps every path that creates a real-modelled float at UNKNOWN (it never
+        # confirms under that approximation); the approximation is a stated assumption here.
+        import crosshair.statespace as _ss
+
+        _ss.StateSpace.cap_result_at_unknown = lambda self: None
+        # finite floats only: no nan/inf forks per float argument
+        core._SIMPLE_PROXIES[float] = lambda creator, *a: RealBasedSymbolicFloat(creator.varname, creator.pytype)
+        ASSUMPTIONS.append("float arguments are modelled as finite reals (IEEE rounding, inf and nan are not modelled)")
+
     # ---- S3: pickle boundary (token table) ------------------------------
     if "tokpickle" in flags:
         install_token_pickle()
